@@ -45,6 +45,13 @@ var hostileIDs = []string{"../../outside", "..", "a/b/../../../x", "../x", "../.
 	"../private-old/x", "../private.bak", "../private2/y", "..\\private-old\\x", "../private"}
 var goodIDs = []string{"client_1", "client-two", "Client 3", "zzzzz", "client_1x"}
 
+// valid ids that CONTAIN a key-kind suffix of the v1 file names (in the middle / at the end), each with the
+// shorter valid id a name parser cutting at the wrong occurrence would confuse it with (domain c07imp
+// enumerates the whole universe and exercises KeyBackuper.Import; here they run through Generate*/Get*,
+// the copy matrix and the byte flips)
+var c07SuffixIDs = [][2]string{{"north_storage_eu1", "north"}, {"north_storage", "north"}, {"app01_hmac_x", "app01"}, {"client_1_storage_sym", "client_1"},
+	{"app01_storage_symx", "app01_storage"}, {"zzzzz_server_1", "zzzzz"}, {"zzzzz_translator", "zzzzz"}, {"north_sym_zone", "north_sym"}}
+
 func genPath(r *vh.Rng) string {
 	n := r.Intn(6)
 	parts := make([]string, n)
@@ -62,6 +69,10 @@ func genID(rep *vh.Report, r *vh.Rng) string {
 	if r.Intn(4) == 0 {
 		rep.Count("id:hostile")
 		return hostileIDs[r.Intn(len(hostileIDs))]
+	}
+	if r.Intn(3) == 0 {
+		rep.Count("id:valid-with-suffix")
+		return c07SuffixIDs[r.Intn(len(c07SuffixIDs))][0]
 	}
 	rep.Count("id:valid")
 	return goodIDs[r.Intn(len(goodIDs))]
@@ -683,6 +694,12 @@ func c07V1History(rep *vh.Report, r *vh.Rng, thorough bool, script []c07V1Step) 
 	defer vh.StopTape()
 	cacheKey := rig.tape.Chunks[0]
 	ids := []string{genID(rep, r), genID(rep, r), goodIDs[r.Intn(2)]}
+	for _, p := range c07SuffixIDs {
+		if p[0] == ids[0] {
+			ids[1] = p[1] // the pair: an id with a suffix inside and the shorter id before that suffix
+			rep.Count("id:suffix-pair")
+		}
+	}
 	nops := 4 + r.Intn(8)
 	if script != nil {
 		nops = len(script)
